@@ -57,6 +57,12 @@ pub const FRAGS: &[Frag] = &[
     // expressions broken over several lines: nested matches begin on different lines
     f("multiline_math", "    function ml$(uint256 a, uint256 b, uint256 c) public pure returns (uint256) {\n        return (a * b) /\n            (c + a) -\n            (b /\n                2);\n    }\n"),
     f("multiline_require", "    function mq$(uint256 a, uint256 b) public pure {\n        require(\n            a > 0 &&\n                b >= a,\n            \"both amounts must be positive and ordered, otherwise revert\"\n        );\n    }\n"),
+    // one state-variable name declared with different attributes: contracts of one file that use
+    // different members of this family (in "clash" mode) declare the same name differently
+    f("clash_plain", "    uint256 shared$ = 5;\n"),
+    f("clash_private", "    uint256 private shared$;\n    function setShared$(uint256 v) public {\n        shared$ = v;\n    }\n"),
+    f("clash_constant", "    uint256 public constant shared$ = 1;\n"),
+    f("clash_address", "    address internal shared$;\n    function whoShared$() public view returns (address) {\n        return shared$;\n    }\n"),
     f("multiline_call", "    function mk$(address t, address to, uint256 a) public {\n        IERC20(t)\n            .transfer(\n                to,\n                a * 4\n            );\n    }\n"),
 ];
 
@@ -87,6 +93,9 @@ pub struct TextSpec {
     pub contracts: Vec<Vec<usize>>,
     pub spdx: bool,
     pub blank_lines: Vec<u8>,
+    /// the contracts of the file reuse the same names (state variables, functions): every
+    /// fragment gets the same suffix in every contract
+    pub clash: bool,
 }
 
 pub fn render(spec: &TextSpec) -> String {
@@ -108,8 +117,17 @@ pub fn render(spec: &TextSpec) -> String {
         s.push_str(&format!("contract C{} {{\n", ci));
         let mut have_ctor = false;
         let mut have_using = false;
+        let mut seen_keys: Vec<&str> = vec![];
         for &fi in frags {
             let fr = &FRAGS[fi % FRAGS.len()];
+            if spec.clash {
+                // within one contract a name is declared once
+                let fam = if fr.key.starts_with("clash_") { "clash_" } else { fr.key };
+                if seen_keys.contains(&fam) {
+                    continue;
+                }
+                seen_keys.push(fam);
+            }
             if fr.ctor {
                 if have_ctor {
                     continue;
@@ -123,11 +141,114 @@ pub fn render(spec: &TextSpec) -> String {
                 have_using = true;
             }
             uniq += 1;
-            s.push_str(&fr.body.replace('$', &format!("{}", uniq)));
+            if spec.clash {
+                s.push_str(&fr.body.replace('$', "x"));
+            } else {
+                s.push_str(&fr.body.replace('$', &format!("{}", uniq)));
+            }
         }
         s.push_str("}\n");
     }
     s
+}
+
+fn clash_family() -> Vec<usize> {
+    (0..FRAGS.len()).filter(|&i| FRAGS[i].key.starts_with("clash_")).collect()
+}
+
+/// Several contracts in one file that declare the same names: each later contract repeats (some
+/// of) the first one's fragments in another order and declares the shared variable differently.
+pub fn gen_clash_spec(rng: &mut Rng) -> TextSpec {
+    let fam = clash_family();
+    let n_contracts = rng.range(2, 4);
+    let mut first: Vec<usize> = (0..rng.range(1, 4)).map(|_| rng.below(FRAGS.len())).collect();
+    first.push(*rng.pick(&fam));
+    rng.shuffle(&mut first);
+    let mut contracts = vec![first.clone()];
+    for _ in 1..n_contracts {
+        let mut c: Vec<usize> = first
+            .iter()
+            .copied()
+            .filter(|&i| !FRAGS[i].key.starts_with("clash_") && rng.chance(3, 4))
+            .collect();
+        if rng.chance(1, 2) {
+            c.push(rng.below(FRAGS.len()));
+        }
+        if rng.chance(5, 6) {
+            c.push(*rng.pick(&fam));
+        }
+        rng.shuffle(&mut c);
+        contracts.push(c);
+    }
+    TextSpec {
+        pragma: rng.below(PRAGMAS.len()),
+        contracts,
+        spdx: rng.chance(1, 3),
+        blank_lines: (0..n_contracts).map(|_| rng.below(3) as u8).collect(),
+        clash: true,
+    }
+}
+
+/// Re-spell a text without changing its tokens: between two tokens (never inside a string, a
+/// comment or the pragma line) put extra blanks, a line break or a comment. `address(0)` becomes
+/// `address( 0 )`, `address /* zero */ (0)`, or is wrapped over lines, as a formatter or a person
+/// might leave it.
+pub fn reformat(text: &str, rng: &mut Rng) -> String {
+    const SEPS: &[&str] = &[" ", " ", "  ", "\t", "\n            ", " /* c */ ", " /* zero */ "];
+    let density = *rng.pick(&[2u32, 4, 8]);
+    let mut out = String::with_capacity(text.len() * 2);
+    for line in text.split_inclusive('\n') {
+        let t = line.trim_start();
+        if t.starts_with("pragma") || t.starts_with("//") {
+            out.push_str(line);
+            continue;
+        }
+        let cs: Vec<char> = line.chars().collect();
+        let mut i = 0;
+        let is_id = |c: char| c.is_alphanumeric() || c == '_' || c == '$';
+        let is_op = |c: char| "+-*/=<>!&|%^~?:".contains(c);
+        while i < cs.len() {
+            let c = cs[i];
+            let start = i;
+            if c == '"' {
+                i += 1;
+                while i < cs.len() && cs[i] != '"' {
+                    if cs[i] == '\\' {
+                        i += 1;
+                    }
+                    i += 1;
+                }
+                i += 1;
+            } else if c == '/' && i + 1 < cs.len() && cs[i + 1] == '/' {
+                i = cs.len();
+            } else if c == '/' && i + 1 < cs.len() && cs[i + 1] == '*' {
+                i += 2;
+                while i + 1 < cs.len() && !(cs[i] == '*' && cs[i + 1] == '/') {
+                    i += 1;
+                }
+                i += 2;
+            } else if is_id(c) {
+                while i < cs.len() && is_id(cs[i]) {
+                    i += 1;
+                }
+            } else if is_op(c) {
+                while i < cs.len() && is_op(cs[i]) && !(cs[i] == '/' && i + 1 < cs.len() && (cs[i + 1] == '/' || cs[i + 1] == '*')) {
+                    i += 1;
+                }
+            } else {
+                i += 1;
+            }
+            let i2 = i.min(cs.len());
+            let tok: String = cs[start..i2].iter().collect();
+            out.push_str(&tok);
+            let is_tok = !tok.trim().is_empty();
+            let rest_has_token = cs[i2..].iter().any(|c| !c.is_whitespace());
+            if is_tok && rest_has_token && !tok.starts_with("//") && rng.chance(1, density) {
+                out.push_str(*rng.pick(SEPS));
+            }
+        }
+    }
+    out
 }
 
 pub fn gen_spec(rng: &mut Rng) -> TextSpec {
@@ -146,6 +267,7 @@ pub fn gen_spec(rng: &mut Rng) -> TextSpec {
         contracts,
         spdx: rng.chance(1, 3),
         blank_lines: (0..n_contracts).map(|_| rng.below(3) as u8).collect(),
+        clash: false,
     }
 }
 
@@ -172,6 +294,7 @@ pub fn stuffed_text(pragma: usize) -> String {
         contracts,
         spdx: false,
         blank_lines: vec![1; n],
+        clash: false,
     })
 }
 
@@ -229,7 +352,11 @@ impl Screen {
     /// Generate a screened text (falls back to a trivially safe file after 20 rejections).
     pub fn gen_text(&mut self, rng: &mut Rng) -> String {
         for _ in 0..20 {
-            let mut t = render(&gen_spec(rng));
+            let mut t = if rng.chance(1, 8) { render(&gen_clash_spec(rng)) } else { render(&gen_spec(rng)) };
+            // occasionally another spelling of the same tokens
+            if rng.chance(1, 6) {
+                t = reformat(&t, rng);
+            }
             // occasionally Windows line ends
             if rng.chance(1, 12) {
                 t = t.replace('\n', "\r\n");
